@@ -6,14 +6,14 @@
    (AllTargets()).  wf g: every dependency is a target of the graph.  nodes g: the targets 0..|g|-1.
    is_cycle g c: c is non-empty, each element depends on the next, the last on the first.
    has_cycle g: some c is a cycle of g.  Fuel is the model's out-of-fuel value. *)
-From PlzV Require Import Base.Harness Model.C06 Model.C06_Skel Proof.C06 Proof.C06_Skel.
+From PlzV Require Import Base.Harness Model.C06 Gen.CycleVisit Model.C06_Skel Proof.C06 Proof.C06_Seq Proof.C06_Skel.
 From Coq Require Import Permutation Lia.
 
 (* src_detect (Model/C06_Skel.v) = the control skeleton of Check and of its visit closure as gotrans
    regenerates it from src/core/cycle_detector.go on every run (Gen/CycleVisit.v), run by an
    interpreter; detect (Model/C06.v) = the hand model the correspondence harness compares with the
    implementation on every run. *)
-Definition C06_statement : Prop :=
+Definition C06_check_statement : Prop :=
   (* the checker this statement is about is the function that is tied to the implementation *)
   (forall g order, src_detect g order = detect g order)
   /\
@@ -29,8 +29,44 @@ Definition C06_statement : Prop :=
      (* an acyclic graph is never reported as cyclic *)
      /\ (~ has_cycle g -> src_detect g order = Clean)).
 
+(* ONE detector kept between runs, as BuildState keeps state.progress.cycleDetector and runs Check each
+   time the build goes idle, while targets are still being added and dependencies resolved.
+   world = (resolved edges, declared dependency labels, the detector's stopped flag); a session is a
+   list of events EAddTarget / EDeclare a b (declared, not resolved) / EResolve a b pos / EStop /
+   ECheck order, run from any world w whose resolved dependencies are targets; valid_events: every
+   EResolve resolves to a target that exists at that moment (nothing is asked of declared
+   dependencies - they may stay unresolved, or name no target at all - nor of earlier Checks).
+   src_session w es = the list of (world, order, result), one per ECheck of es.
+   correct_for g o: o is not the out-of-fuel value, a reported cycle is a genuine cycle of g, a cycle
+   of g is reported, an acyclic g gives Clean. *)
+Definition C06_session_statement : Prop :=
+  (* besides the graph pointer, the stopped flag is the only field of type cycleDetector, as
+     regenerated from the source on every run: partial/complete are not kept *)
+  src_persistent = [DStopped]
+  /\
+  (* stateless across runs: what the Checks after any point of a session return does not depend on
+     whether the Checks before that point ran *)
+  (forall w pre post,
+     src_session w (pre ++ post) = src_session w pre ++ src_session w (erase_checks pre ++ post))
+  /\
+  (* every Check of every session is the function check_world of the world at that moment - of the
+     edges resolved by then only, not of the declared ones - and is sound and complete for them *)
+  (forall w pre order post,
+     wf (resolved w) -> valid_events w pre ->
+     Permutation order (nodes (resolved (final_world w pre))) ->
+     let wk := final_world w pre in
+     let o := check_world src_detect wk order in
+     nth_error (src_session w (pre ++ ECheck order :: post)) (checks pre) = Some (Ran wk order o)
+     /\ final_world w (erase_checks pre) = wk
+     /\ wf (resolved wk)
+     /\ (stopped wk = false -> correct_for (resolved wk) o)
+     (* after Stop() the detector reports nothing any more (assumption "c.stopped is false") *)
+     /\ (stopped wk = true -> o = Clean)).
+
+Definition C06_statement : Prop := C06_check_statement /\ C06_session_statement.
+
 Theorem C06_full : C06_statement.
-Proof. exact src_detect_correct. Qed.
+Proof. exact (conj src_detect_correct src_session_correct). Qed.
 Print Assumptions C06_full.
 
 (* Non-vacuity.  A cycle (4 -> 2 -> 4) that is reached only after an acyclic part (3, then 1) has been
@@ -61,4 +97,26 @@ Proof.
     apply (Permutation_rev [4; 3; 2; 1]). }
   split; [exact Hwf |]. split; [exact Hperm |]. split; [| vm_compute; reflexivity].
   eapply clean_acyclic; [exact Hwf | exact Hperm | vm_compute; reflexivity].
+Qed.
+
+(* One detector, two runs: 0 -> 1 -> 2 is resolved while 0 still has a declared dependency on a label
+   (7) that is no target, Check runs (Clean, every target completed); then 2 -> 0 is resolved and the
+   same detector runs again: the cycle is reported although every target was completed by the first
+   run.  After Stop() nothing is reported. *)
+Example C06_nonvacuous_session :
+  let pre := [EAddTarget; EAddTarget; EAddTarget; EDeclare 0 7; EResolve 0 1 0; EResolve 1 2 0;
+              ECheck [0; 1; 2]; EDeclare 2 0; EResolve 2 0 0] in
+  wf (resolved world0) /\ valid_events world0 pre
+  /\ Permutation [1; 2; 0] (nodes (resolved (final_world world0 pre)))
+  /\ stopped (final_world world0 pre) = false
+  /\ has_cycle (resolved (final_world world0 pre))
+  /\ map r_out (src_session world0 (pre ++ [ECheck [1; 2; 0]; EStop; ECheck [0; 1; 2]]))
+     = [Clean; Found [2; 0; 1]; Clean]
+  /\ map (fun r => map (decl_count (declared (r_world r))) [0; 1; 2])
+         (src_session world0 (pre ++ [ECheck [1; 2; 0]])) = [[2; 1; 0]; [2; 1; 1]].
+Proof.
+  cbn zeta. split; [exact world0_wf |]. split; [cbn; lia |]. split.
+  - cbn. apply Permutation_sym. apply (Permutation_cons_append [1; 2] 0).
+  - split; [reflexivity |]. split; [| split; vm_compute; reflexivity].
+    exists [0; 1; 2]. split; [discriminate |]. cbn. tauto.
 Qed.
